@@ -10,11 +10,9 @@ sys.path.insert(0, str(Path(__file__).resolve().parent))
 sys.path.insert(0, str(Path(__file__).resolve().parent.parent / 'translate'))
 import lib  # noqa
 import c08_cfg  # noqa
+import c08_types  # noqa
 
 PID = 'C08'
-ELEMENT_TYPES = ['line', 'line2', 'spring', 'tri', 'tri2', 'quad', 'quad2', 'polygon', 'tet', 'tet2',
-                 'pyr', 'pyr2', 'prism', 'prism2', 'hex', 'hex2', 'hexprism', 'polyhedron', 'unknown']
-WIDTH = {'line': 2, 'tri': 3, 'quad': 4, 'tet': 4, 'pyr': 5, 'prism': 6, 'hex': 8, 'tet2': 10}
 
 # which refresh site a disagreement between two views is attributed to:
 # (operation after which the views first differ, views) -> site, cfg flag
@@ -122,7 +120,7 @@ def case_l(r):
 
 
 HEADER = ('From Coq Require Import ZArith List Bool.\nImport ListNotations.\n'
-          'From FV.C08 Require Import Table Model Corr.\nFrom FV.C08.gen Require Import AttrCfg.\n'
+          'From Coq Require Import String.\nFrom FV.C08 Require Import Table Model ElemModel Corr.\nFrom FV.C08.gen Require Import AttrCfg ElemTypes.\n'
           'Local Open Scope Z_scope.\nSet Printing Width 100000.\nSet Printing Depth 100000.\n')
 
 
@@ -216,88 +214,150 @@ def shrink_prefix(r, step):
 
 
 # ------------------------------------------------------------ elemental cases
-def gen_ecases(ctx, n):
+# nodes per element of the fixed-width types; 'polygon' / 'unknown' / a name this
+# table does not know get one random width per block, 'polyhedron' is ragged
+WIDTH = {'line': 2, 'line2': 3, 'spring': 2, 'tri': 3, 'tri2': 6, 'quad': 4, 'quad2': 8, 'tet': 4,
+         'tet2': 10, 'pyr': 5, 'pyr2': 13, 'prism': 6, 'prism2': 15, 'hex': 8, 'hex2': 20, 'hexprism': 12}
+INVALID_KEYS = ['pt', 'foo', 'TET', 'polyhedr', 'hexa', 'mix']
+
+
+def validate_keys(d, types):
+    """mirror of FEMElementalAttribute._validate_keys (oracle side only; the
+    model's own copy is ElemModel.validate_keys)"""
+    for bl in d:
+        if bl[0] not in types:
+            if len(d) > 1:
+                return None
+            return [['unknown', bl[1], bl[2]]]
+    return d
+
+
+def gen_ecases(ctx, n, types):
     rng = ctx.rng
     cases = []
     for cid in range(n):
-        nt = rng.choice([1, 1, 2, 2, 3, 4])
-        types = rng.sample(list(WIDTH), nt)
         mode = rng.choice(['dense', 'sparse', 'large'])
         pool = set()
 
         def fresh(k):
             out = []
             while len(out) < k:
-                i = {'dense': rng.randrange(1, 40), 'sparse': rng.randrange(1, 100000),
+                i = {'dense': rng.randrange(1, 60 + 2 * len(pool)), 'sparse': rng.randrange(1, 100000),
                      'large': rng.choice([rng.randrange(1, 30), rng.randrange(2 ** 31, 2 ** 31 + 30),
                                           rng.randrange(2 ** 40, 2 ** 40 + 30)])}[mode]
                 if i not in pool:
                     pool.add(i)
                     out.append(i)
             return out
-        blocks = []
-        for t in types:
+
+        def block(t):
             k = rng.choice([1, 2, 3, 5])
             ids = fresh(k)
             if rng.random() < 0.25:
                 ids.sort()
-            blocks.append([t, ids, [[rng.randrange(1, 500) for _ in range(WIDTH[t])] for _ in ids]])
+            if t == 'polyhedron':
+                rows = [[rng.randrange(1, 500) for _ in range(rng.randrange(4, 11))] for _ in ids]
+            else:
+                w = WIDTH.get(t) or rng.randrange(1 if t not in ('polygon',) else 3, 10)
+                rows = [[rng.randrange(1, 500) for _ in range(w)] for _ in ids]
+            return [t, ids, rows]
+
+        def names(k):
+            out = rng.sample(types, min(k, len(types)))
+            if rng.random() < 0.3 and 'polyhedron' in types and 'polyhedron' not in out:
+                out[rng.randrange(len(out))] = 'polyhedron'     # the ragged / longest-named type
+            if rng.random() < 0.08:
+                out[rng.randrange(len(out))] = rng.choice(INVALID_KEYS)
+            return out
+        nt = rng.choice([1, 1, 2, 2, 3, 4, 6, len(types) if rng.random() < 0.3 else 2])
+        blocks = [block(t) for t in names(nt)]
+        cur = validate_keys(blocks, types)
         updates = []
-        if rng.random() < 0.3:
-            # dict-update: replace one block / add a block (ids stay distinct)
-            t = rng.choice(list(WIDTH))
-            for bl in blocks:
-                if bl[0] == t:
-                    pool.difference_update(bl[1])
-            k = rng.choice([1, 2, 4])
-            ids = fresh(k)
-            updates.append([t, ids, [[rng.randrange(1, 500) for _ in range(WIDTH[t])] for _ in ids]])
-        final = {t: (ids, rows) for t, ids, rows in blocks}
-        for t, ids, rows in updates:
-            final[t] = (ids, rows)
-        allids = [i for ids, _ in final.values() for i in ids]
-        m = rng.choice([1, 2, 3, len(allids)])
-        q = rng.sample(allids, min(m, len(allids)))
-        if rng.random() < 0.25:
-            q.insert(rng.randrange(len(q) + 1), max(allids) + 1 + rng.randrange(5))
-        g = rng.sample(allids, rng.randrange(1, len(allids) + 1))
-        cases.append({'id': cid, 'blocks': blocks, 'updates': updates, 'q': q, 'g': g,
-                      'final': [[ELEMENT_TYPES.index(t), final[t][0], final[t][1]]
-                                for t in ELEMENT_TYPES if t in final], 'mode': mode})
+        if cur is not None:
+            cur = {bl[0]: bl for bl in cur}
+            for _ in range(rng.choice([0, 0, 0, 1, 1, 2])):
+                # dict-update: replace blocks / add blocks (ids stay distinct)
+                ns = names(rng.choice([1, 1, 2]))
+                if rng.random() < 0.5 and ns[0] in types:
+                    ns[0] = rng.choice(list(cur))
+                ns = list(dict.fromkeys(ns))
+                vn = [x[0] for x in (validate_keys([[x, 0, 0] for x in ns], types) or [])]
+                for t in vn:
+                    if t in cur:
+                        pool.difference_update(cur[t][1])
+                u = [block(t) for t in ns]
+                updates.append(u)
+                vu = validate_keys(u, types)
+                if vu is None:
+                    cur = None
+                    break
+                for bl in vu:
+                    cur[bl[0]] = bl
+        c = {'id': cid, 'blocks': blocks, 'updates': updates, 'mode': mode, 'q': [], 'g': []}
+        if cur is not None:
+            c['final'] = [cur[t] for t in types if t in cur]
+            allids = [i for bl in c['final'] for i in bl[1]]
+            m = rng.choice([1, 2, 3, len(allids), len(allids)])
+            q = rng.sample(allids, min(m, len(allids)))
+            if rng.random() < 0.25:
+                q.insert(rng.randrange(len(q) + 1), max(allids) + 1 + rng.randrange(5))
+            c['q'] = q
+            c['g'] = rng.sample(allids, rng.randrange(1, len(allids) + 1))
+        else:
+            c['final'] = None
+        cases.append(c)
     return cases
 
 
+def st(x):
+    return '"' + re.sub(r'[^A-Za-z0-9_-]', '?', str(x)) + '"%string'
+
+
+def dict_l(d):
+    return '[' + ';'.join(f'({st(t)},{table_l(list(zip(ids, rows)))})' for t, ids, rows in d) + ']'
+
+
 def ecase_l(c, r):
-    bs = '[' + ';'.join(f'({t}%nat,{table_l(list(zip(ids, rows)))})' for t, ids, rows in c['final']) + ']'
-    s, f = r['summary'], r['filter_summary']
-    fb = '[' + ';'.join(f'({t}%nat,{table_l(tb)})' for t, tb in r['filter_blocks']) + ']'
+    d0 = dict_l(c['blocks'])
+    upds = '[' + ';'.join(dict_l(u) for u in c['updates']) + ']'
+    empty = {'ids': [], 'types': [], 'data': [], 'id2index': [], 'ids_types': [], 'dict_type_ids': [], 'keys': []}
+    s, f = r.get('summary', empty), r.get('filter_summary', empty)
+    nb = lambda bs: '[' + ';'.join(f'({st(t)},{table_l(tb)})' for t, tb in bs) + ']'   # noqa
     i2i = '[' + ';'.join(f'({i},{k}%nat)' for i, k in s['id2index']) + ']'
+    sl = lambda xs: '[' + ';'.join(st(x) for x in xs) + ']'    # noqa
     gtab = table_l([(i, [i % 100003 * 3 + 1]) for i in c['g']])
-    gen = '[' + ';'.join(f'({t}%nat,{table_l(tb)})' for t, tb in r.get('generated', [])) + ']'
-    ob = ('{|e_ids:=%s;e_types:=%s;e_data:=%s;e_id2index:=%s;e_q:=%s;e_filter:=%s;e_fids:=%s;'
-          'e_ftypes:=%s;e_fdata:=%s;e_g:=%s;e_gen:=%s|}') % (
-        zl(s['ids']), nl(s['types']), rows_l(s['data']), i2i, zl(c['q']), fb, zl(f['ids']),
-        nl(f['types']), rows_l(f['data']), gtab, gen)
-    return f'({c["id"]}%nat, check_summary {bs} {ob})'
+    ob = ('{|e_raised:=%s;e_ids:=%s;e_types:=%s;e_data:=%s;e_id2index:=%s;e_ids_types:=%s;e_dti:=%s;'
+          'e_keys:=%s;e_q:=%s;e_filter:=%s;e_fids:=%s;e_ftypes:=%s;e_fdata:=%s;e_g:=%s;e_gen:=%s|}') % (
+        b(r.get('raised')), zl(s['ids']), sl(s['types']), rows_l(s['data']), i2i,
+        '[' + ';'.join(f'({i},{st(t)})' for i, t in s['ids_types']) + ']',
+        '[' + ';'.join(f'({st(t)},{zl(v)})' for t, v in s['dict_type_ids']) + ']',
+        sl(s['keys']), zl(c['q']), nb(r.get('filter_blocks', [])), zl(f['ids']),
+        sl(f['types']), rows_l(f['data']), gtab, nb(r.get('generated', [])))
+    return f'({c["id"]}%nat, check_summary {d0} {upds} {ob})'
 
 
 def eoracle(c, r):
     """the collection part of the property on the implementation's output"""
+    if r.get('raised') or c['final'] is None:
+        return []        # raise / no-raise is compared with the model (code 90)
     s = r['summary']
     bad = []
     final = {t: (ids, rows) for t, ids, rows in c['final']}
     want = sorted((i, t, tuple(row)) for t, (ids, rows) in final.items() for i, row in zip(ids, rows))
     got = list(zip(s['ids'], s['types'], map(tuple, s['data'])))
+    if any(t not in s['keys'] for t in s['types']):
+        bad.append('type-is-not-a-key-of-the-collection')
     if sorted(got) != want:
         bad.append('not-every-element-exactly-once')
     if len(final) > 1 and s['ids'] != sorted(s['ids']):
         bad.append('not-ascending')
     if s['id2index'] != [[i, k] for k, i in enumerate(s['ids'])]:
         bad.append('id2index')
-    if s['ids_types_index'] != s['ids'] or s['ids_types'] != s['types']:
+    if s['ids_types'] != [[i, t] for i, t in zip(s['ids'], s['types'])]:
         bad.append('ids_types')
-    if {t: sorted(v) for t, v in s['dict_type_ids'].items()} != \
-            {ELEMENT_TYPES[t]: sorted(ids) for t, (ids, _) in final.items()}:
+    if s['keys'] != list(final) or s['unique_types'] != sorted(final):
+        bad.append('keys-or-unique_types')
+    if sorted((t, sorted(v)) for t, v in s['dict_type_ids']) != sorted((t, sorted(ids)) for t, (ids, _) in final.items()):
         bad.append('dict_type_ids')
     f = r['filter_summary']
     wantf = sorted((i, t, row) for (i, t, row) in want if i in c['q'])
@@ -324,7 +384,8 @@ def main(ctx):
                 'by vm_compute; a case is one history; non-trivial = at least one update succeeded; '
                 'distinct = distinct (initial table, op list); plus random mixed element collections')
     ctx.trusted += [
-        'translator /verif/translate/c08_cfg.py (reads five refresh sites, fail-closed)',
+        'translators /verif/translate/c08_cfg.py (five refresh sites + three id-keyed filters; a site it cannot '
+        'read falls back to the registered value and a widened correspondence) and c08_types.py (ELEMENT_TYPES)',
         'hand model coq/C08/Model.v of FEMAttribute/_Indexer/FEMAttributes/FEMElementalAttribute, '
         'tied by the correspondence (pandas .loc/.iloc/combine_first/DataFrame-copy semantics are '
         'represented in the model and pinned only there)',
@@ -342,10 +403,11 @@ def main(ctx):
     ]
     for p in lib.REPLAY.glob(PID + '_*.json'):
         p.unlink()
-    # 1. translate
-    tie_ok, cfg = True, None
+    # 1. translate.  A site the grammar cannot read is no alarm: it keeps its registered value
+    #    (hand model, tie H) and the correspondence is widened on the operations it decides.
+    tie_ok, cfg, unreadable = True, None, {}
     try:
-        cfg, consumed = c08_cfg.translate(str(lib.REPO))
+        cfg, consumed, unreadable = c08_cfg.translate(str(lib.REPO))
         ctx.sources = consumed
         for f in ('fem_attribute.py', 'fem_attributes.py', 'fem_elemental_attribute.py',
                   'time_series_dataframe.py'):
@@ -356,6 +418,39 @@ def main(ctx):
         tie_ok = False
         ctx.log('translator failed closed:', e)
         ctx.notes['translator_error'] = str(e)
+    # the table of element type names: read from the source (T), validated against / replaced by
+    # the value the imported class holds (evaluated, H) when the source is not a plain literal
+    types_ast, types_why = None, None
+    try:
+        types_ast, cons = c08_types.translate(str(lib.REPO))
+        ctx.sources.update(cons)
+    except (c08_types.TranslateError, SyntaxError, OSError) as e:
+        types_why = str(e)
+    try:
+        types_rt = run_impl(ctx, {'cases': [], 'ecases': []}, tag='types')['element_types']
+    except Exception as e:      # noqa: the main run below reports a child that cannot start
+        types_rt = None
+        ctx.log('element types could not be evaluated:', str(e)[-300:])
+    types = types_rt or types_ast or []
+    if types_ast is not None and types_ast == types_rt:
+        ctx.notes['element_types_tie'] = 'T (literal read from the source, equal to the value at run time)'
+    else:
+        ctx.notes['element_types_tie'] = ('H (evaluated at run time; source: %s)' %
+                                          (types_why or 'literal differs from the run-time value'))
+    ctx.notes['element_types'] = types
+    if types and all(re.fullmatch(r'[A-Za-z0-9_-]+', t) for t in types):
+        lib.write_if_changed(lib.COQ / 'C08' / 'gen' / 'ElemTypes.v', c08_types.emit(types))
+    if unreadable:
+        n_seq = max(n_seq, 1500)
+        bias = sorted({k for f in unreadable for k in c08_cfg.SITE_OPS.get(f, [])})
+        ctx.notes['tie'] = ('H for %s (translator could not read: %s; registered model + widened '
+                            'correspondence, %d histories biased to %s)' % (
+                                ', '.join(sorted(unreadable)), '; '.join(f'{k}: {v}' for k, v in sorted(unreadable.items())),
+                                n_seq, bias or 'all operations'))
+        ctx.log(ctx.notes['tie'])
+    else:
+        bias = []
+        ctx.notes['tie'] = 'T for the five refresh sites and the id-keyed filters (all read from the source)'
 
     # 2. proofs
     proof_ok = False
@@ -373,7 +468,7 @@ def main(ctx):
                                     'note': 'translator failed closed'})
         # keep the last good configuration for the model so that the
         # correspondence and the search still run
-        ok, _, _ = lib.coq_make(['C08/Corr.vo', 'C08/gen/AttrCfg.vo'])
+        ok, _, _ = lib.coq_make(['C08/Corr.vo', 'C08/gen/AttrCfg.vo', 'C08/gen/ElemTypes.vo'])
 
     # 3. cases: corpus first, then the model's witnesses, then random histories
     cases = []
@@ -386,9 +481,9 @@ def main(ctx):
         cases.append({'id': len(cases), 'seed': f'w{flag}', 'init': w['init'], 'ops': w['ops'],
                       'origin': 'witness:' + flag})
     for _ in range(n_seq):
-        cases.append({'id': len(cases), 'seed': ctx.rng.randrange(2 ** 62),
+        cases.append({'id': len(cases), 'seed': ctx.rng.randrange(2 ** 62), 'bias': bias,
                       'n_ops': ctx.rng.choice([1, 2, 4, 6, 8, 10, 12, 12]), 'origin': 'random'})
-    ecases = gen_ecases(ctx, n_el)
+    ecases = gen_ecases(ctx, n_el, types)
     res = run_impl(ctx, {'cases': cases, 'ecases': ecases})
     results = {r['id']: r for r in res['cases']}
     eresults = {r['id']: r for r in res['ecases']}
@@ -432,9 +527,11 @@ def main(ctx):
         ctx.count('id2index:' + ('yes' if init['gen'] else 'no'))
         ctx.count('dtype:' + init.get('dtype', 'float64'))
         ctx.count('other-members:%d' % len(init.get('others', [])))
+        ctx.count('name:' + ('alias' if init.get('names') else 'plain'))
         n_ok = 0
         for s in r['steps']:
-            ctx.count('op:' + s['op']['k'] + (':raised' if s['obs']['raised'] else ''))
+            ctx.count('op:' + s['op']['k'] + (':kept-slice' if 'kept' in s['op'] else '') +
+                      (':raised' if s['obs']['raised'] else ''))
             n_ok += 0 if s['obs']['raised'] else 1
         ctx.case([init['ids'], init['rows'], [s['op'] for s in r['steps']]], nontrivial=n_ok > 0,
                  sample={'init': {k: init[k] for k in ('ids', 'rows', 'tail', 'ts', 'gen')},
@@ -442,8 +539,10 @@ def main(ctx):
                          'last_state': {k: (r['steps'][-1]['obs'] if r['steps'] else r['obs0'])[k]
                                         for k in ('ids', 'data', 'frame')}})
     for c in egood:
-        ctx.count('collection:%d-types' % len(c['final']))
-        ctx.case(['e', c['blocks'], c['updates'], c['q']], nontrivial=True)
+        ctx.count('collection:' + ('raises' if c['final'] is None else '%d-types' % len(c['final'])))
+        for bl in c['final'] or []:
+            ctx.count('collection-type:' + bl[0])
+        ctx.case(['e', c['blocks'], c['updates'], c['q']], nontrivial=c['final'] is not None)
 
     # 5. property oracle on the implementation
     n_or = 0
@@ -477,7 +576,7 @@ def main(ctx):
         badp = eoracle(c, eresults[c['id']])
         if badp:
             n_or += 1
-            ctx.violation('impl-violation', {'blocks': c['blocks'], 'updates': c['updates'], 'q': c['q']},
+            ctx.violation('impl-violation', {'blocks': c['blocks'], 'updates': c['updates'], 'q': c['q'], 'g': c['g']},
                           'collection lists every element once, ascending, consistent',
                           {'failed': badp, 'summary': eresults[c['id']]['summary']},
                           'C08_summary_sorted_complete (oracle on the implementation)',
@@ -510,15 +609,15 @@ def main(ctx):
                       {'first_step': step, 'after': opk, 'paths': paths, 'codes': codes[:12],
                        'impl': (r['steps'][step - 1]['obs'] if step else r['obs0'])},
                       'correspondence C08 (Corr.check_case)',
-                      found_input=cid in unknown_or,
+                      found_input=True,
                       signature={'kind': 'correspondence', 'op': opk, 'paths': ','.join(paths)},
                       what='model and implementation differ')
     for cid, codes in sorted(ebad.items())[:4]:
         c = ecases[cid]
-        ctx.violation('correspondence', {'blocks': c['blocks'], 'updates': c['updates'], 'q': c['q']},
+        ctx.violation('correspondence', {'blocks': c['blocks'], 'updates': c['updates'], 'q': c['q'], 'g': c['g']},
                       'model and implementation agree on the collection summary',
                       {'codes': codes, 'impl': eresults[cid]}, 'correspondence C08 (Corr.check_summary)',
-                      found_input=bool(eoracle(c, eresults[cid])),
+                      found_input=True,
                       signature={'kind': 'correspondence-collection', 'codes': str(codes)})
     if compile_fail:
         ctx.violation('correspondence', {'files': compile_fail}, 'scratch files compile', 'coqc failed',
@@ -544,6 +643,27 @@ def replay(path):
     rp = json.loads(Path(path).read_text())
     c = rp['case']
     ctx = lib.Ctx(PID, 'quick')
+    if 'blocks' in c:
+        types = run_impl(ctx, {'cases': [], 'ecases': []}, tag='replay')['element_types']
+        vd = validate_keys(c['blocks'], types)
+        cur = None if vd is None else {bl[0]: bl for bl in vd}
+        for u in c['updates']:
+            vu = None if cur is None else validate_keys(u, types)
+            cur = None if vu is None else {**cur, **{bl[0]: bl for bl in vu}}
+        ec = {'id': 0, 'blocks': c['blocks'], 'updates': c['updates'], 'q': c['q'], 'g': c.get('g', []),
+              'final': None if cur is None else [cur[t] for t in types if t in cur]}
+        r = run_impl(ctx, {'cases': [], 'ecases': [ec]}, tag='replay')['ecases'][0]
+        if 'error' in r:
+            print(r['error'])
+            return 1
+        print('implementation:', json.dumps({k: r.get(k) for k in ('raised', 'summary', 'filter_blocks')})[:3000])
+        orc = eoracle(ec, r)
+        print('collection views that disagree on the implementation:', orc)
+        lib.coq_make(['C08/Corr.vo', 'C08/gen/AttrCfg.vo', 'C08/gen/ElemTypes.vo'])
+        badc = coq_check(ctx, 'Replay', [ecase_l(ec, r)])
+        print('model vs implementation (failing codes):', badc)
+        print('property', 'VIOLATED' if orc or badc else 'holds', 'on this collection')
+        return 1 if orc or badc else 0
     if 'init' not in c:
         print('nothing to replay on the implementation:', json.dumps(rp, indent=1)[:3000])
         return 1
